@@ -27,10 +27,28 @@ ASSUMPTIONS = [
     'the transcendental functions (math.log, exp, pow, sqrt) are parameters of the theorems; the run checks which '
     'function is applied: the real result must equal the harness\'s own math function of that tag applied to the '
     'real (validated) argument within relative 2^-40, or raise the same exception class',
-    'hand-written model lean/PyIpmi/Model/Sensor.lean tied by this correspondence run; the linearisation dispatch '
-    'table is regenerated from the working tree every run (Gen/SdrTables.lean)',
+    'GENERATED every run from the AST of the working tree (harness/translate/sdrexpr.py -> Gen/SensorExpr.lean, one '
+    'Lean definition per source statement, fail closed outside its grammar): the two sign conversions and the argument '
+    '(self.m * raw + (self.b * 10**self.k1)) * 10**self.k2 of convert_sensor_raw_to_value; the linearisation mask, the '
+    'inverse formula, the two negative encodings with the variable their `if ... < 0` tests and both guards '
+    '(is-not-linear, raw > 0xff) of convert_sensor_value_to_raw; _convert_complement.  Theorems gen_signedRaw_eq, '
+    'gen_arg_eq, gen_convert_eq, gen_rawQ_eq, gen_encodeSigned_eq, gen_valueToRaw_eq, gen_convertComplement_eq prove '
+    'that the model (Variant.intended) is these expressions; gen_signed_spec, gen_forward_argument, '
+    'gen_inverse_roundtrip restate the property for the generated definitions',
+    'typing of the generated definitions (the domain the model covers): raw is a Nat (a reading byte), value a Rat, '
+    'self.m / b / k1 / k2 are Int, analog_data_format / linearization Nat; `/` is exact rational division (sdr.py has '
+    '`from __future__ import division`, checked), 10**k is exact (reciprocal for k < 0), & | ^ on a possibly negative '
+    'int follow Python\'s two\'s-complement rule (Model/PyInt.lean); `int(round(x))` is an opaque cut (the model '
+    'rounds half-to-even on the exact value)',
+    'hand-written (lean/PyIpmi/Model/Sensor.lean) and tied by this correspondence run only: the control skeleton '
+    '(order of guards, ZeroDivisionError for M = 0, None -> None), round(), the call of self.lin; the linearisation '
+    'dispatch table is regenerated (Gen/SdrTables.lean)',
+    'the two deviations of the ORIGINAL pinned source (repaired in /repo since) stay in the model as Variant flags: '
+    'inverse_*_counterexample theorems about the frozen asShipped variant are documentation; the generated expressions '
+    'are equated with Variant.intended; the run still probes the real code, so a returning defect is reported with a '
+    'concrete input while the gen_* theorems stop building',
 ]
-TRUSTED = ['harness/translate/sdr.py', 'harness/props/c17.py']
+TRUSTED = ['harness/translate/sdr.py', 'harness/translate/sdrexpr.py', 'harness/props/c17.py']
 
 TOL_BITS = 40
 BOUNDARY_M = [-512, -511, -256, -129, -128, -2, -1, 1, 2, 3, 127, 128, 255, 256, 511]
